@@ -50,6 +50,7 @@ type Contract struct {
 	MayPanic    bool    // panic/exit behaviour unspecified
 	NoReturn    bool
 	Keeps       []string
+	PostEffects []*Effect // ghost assignments made at each call site after the call returned (may mention result)
 	LoopAll     []*Clause // invariants of every loop of the function (auto contracts)
 	Dispatch    bool
 	IgnoreDefer bool
@@ -177,6 +178,16 @@ func ParseContractFile(path, pkgPath string) ([]*Contract, error) {
 				}
 				cur.Assigns = append(cur.Assigns, cl)
 			}
+		case "posteffect":
+			parts := strings.SplitN(rest, "=", 2)
+			if len(parts) != 2 {
+				return nil, fmt.Errorf("%s:%d: bad posteffect", path, lineNo)
+			}
+			e, err := parser.ParseExpr(strings.TrimSpace(parts[1]))
+			if err != nil {
+				return nil, fmt.Errorf("%s:%d: %v", path, lineNo, err)
+			}
+			cur.PostEffects = append(cur.PostEffects, &Effect{Target: strings.TrimSpace(parts[0]), Src: rest, Expr: e})
 		case "effect":
 			parts := strings.SplitN(rest, "=", 2)
 			if len(parts) != 2 {
